@@ -51,6 +51,16 @@ pub struct RawOutcome {
     pub died: Option<String>,
 }
 
+impl RawOutcome {
+    pub fn error_message_or<'a>(&'a self, d: &'a str) -> &'a str {
+        if self.msg.is_empty() {
+            d
+        } else {
+            &self.msg
+        }
+    }
+}
+
 pub fn run_raw(
     peers: &Peers,
     script: &str,
